@@ -53,6 +53,8 @@ fn dec<const N: usize>(b: &[u8]) -> Option<Result<Vec<u8>, &'static str>> {
         Err(_) => Err("other"),
     })
 }
+fn ser<const N: usize>(b: &[u8]) -> Option<String> { if b.len() != N { return None; } serde_json::to_string(&Hash::<N>::from(b)).ok() }
+fn deser<const N: usize>(s: &str) -> Option<Option<Vec<u8>>> { Some(serde_json::from_str::<Hash<N>>(s).ok().map(|h| h.to_vec())) }
 fn from_slice<const N: usize>(b: &[u8]) -> Option<Option<Vec<u8>>> { let b = b.to_vec(); Some(guard(move || Hash::<N>::from(&b[..]).to_vec())) }
 
 // ------------------------------------------------------------------ CBOR token sequences
@@ -212,6 +214,10 @@ pub fn generate(g: &mut Gen) {
             _ => { let mut s = hex_string_case(r, &h); s.push_str(*r.pick(&["0", "00", "0a0", "ff"])); s }
         };
         ops.push(format!("fromstr {} {}", n, hex(s.as_bytes())));
+        // serde: Serialize = the hex string, Deserialize = FromStr on a JSON string
+        ops.push(format!("serde {}", hex(&h)));
+        let json = match r.below(6) { 0 => "null".to_string(), 1 => r.below(1000).to_string(), 2 => format!("\"{}", s), _ => format!("\"{}\"", s) };
+        ops.push(format!("deserde {} {}", n, hex(json.as_bytes())));
         // 5. CBOR codec
         ops.push(format!("enc {}", hex(&h)));
         let len = match r.below(4) { 0 => n, 1 => r.below(65) as usize, 2 => n + 1, _ => n.saturating_sub(1) };
@@ -374,6 +380,34 @@ pub fn run_case(case: &Case, out: &mut Out) {
                         let valid = sb.len() == 2 * n as usize && sb.iter().all(|c| c.is_ascii_hexdigit());
                         if valid { out.viol(format!("hex-valid-rejected n={n}"), format!("{:?} rejected ({c})", s)); }
                         out.err(c);
+                    }
+                    None => out.reply("bad-op".into()),
+                }
+            }
+            "serde" => {
+                let Some(b) = unhex(a(1)) else { out.reply("bad-op".into()); continue };
+                match with_size!(b.len(), ser, &b) {
+                    Some(j) => {
+                        if j != format!("\"{}\"", hex::encode(&b)) { out.viol(format!("serde-serialize n={}", b.len()), format!("{} -> {}", hex(&b), j)); }
+                        if with_size!(b.len(), deser, &j) != Some(Some(b.clone())) { out.viol(format!("serde-roundtrip n={}", b.len()), format!("{} -> {}", hex(&b), j)); }
+                        out.ok(hex(j.as_bytes()));
+                    }
+                    None => out.reply("bad-op".into()),
+                }
+            }
+            "deserde" => {
+                let (Some(n), Some(jb)) = (num(1), unhex(a(2))) else { out.reply("bad-op".into()); continue };
+                let Ok(j) = String::from_utf8(jb.clone()) else { out.reply("bad-op".into()); continue };
+                match with_size!(n as usize, deser, &j) {
+                    Some(Some(h)) => {
+                        if jb.len() != 2 * n as usize + 2 || h.len() != n as usize { out.viol(format!("serde-wrong-length-accepted n={n}"), format!("{} accepted as Hash<{}>", j, n)); }
+                        out.cov("deserde-ok");
+                        out.ok(hex(&h));
+                    }
+                    Some(None) => {
+                        let inner_ok = jb.len() == 2 * n as usize + 2 && jb[0] == b'"' && jb[jb.len() - 1] == b'"' && jb[1..jb.len() - 1].iter().all(|c| c.is_ascii_hexdigit());
+                        if inner_ok { out.viol(format!("serde-valid-rejected n={n}"), j.clone()); }
+                        out.err("invalid");
                     }
                     None => out.reply("bad-op".into()),
                 }
